@@ -775,6 +775,24 @@ pub(crate) fn check_if_response_is_matched(
         (0, total_count - reorg_count)
     };
 
+    // No matter whether there are sampled headers or not, the last n headers should end at the
+    // parent of the last header.
+    {
+        let last_number = last_header.header().number();
+        let is_ended_at_parent_of_last_header = headers[headers.len() - 1]
+            .header()
+            .number()
+            .checked_add(1)
+            == Some(last_number);
+        if !is_ended_at_parent_of_last_header {
+            let errmsg = format!(
+                "the headers (last n count: {}) should be ended at block#{} - 1",
+                last_n_count, last_number
+            );
+            return Err(StatusCode::MalformedProtocolMessage.with_context(errmsg));
+        }
+    }
+
     if sampled_count == 0 {
         if last_n_count > 0 {
             // If no sampled headers, the last_n_blocks should be all new blocks.
